@@ -1,7 +1,12 @@
 """Stream `cli` (C14, exit-status half of C02): the real command line on files whose names disagree with their
 contents, under every way of selecting the two parsers and the option aliases; compared with
   * the L9 model's prediction of which parser reads which file and of the build / printer options, and
-  * the library call sequence (get_filetype + build_tree + diff + formatter.print) on the same files."""
+  * the library call sequence (get_filetype + build_tree + diff / get_all_edits / get_all_edit_contexts +
+    formatter.print) on the same files, in full-diff, -e and -d mode, with and without -f.
+Second audit (M14): pickle inputs (binary filesets, --from-pickle / --to-pickle, .pkl / .pickle names), each join flag
+alone (-jl, -jd), different types on the two sides in all four spellings on names that do not imply the type,
+compression-like names (old.json.gz) under an explicit type, and the command as a real process writing to a pipe
+with status output on."""
 import json
 
 NAME = "cli"
@@ -21,6 +26,36 @@ J1 = '{"a": [1, 2, 3], "b": "x", "c": {"d": true}}'
 J2 = '{"a": [1, 3], "b": "xy", "c": {"d": true, "e": null}}'
 X1 = '<?xml version="1.0"?><root k="v"><item>one</item><item n="2">two</item></root>'
 X2 = '<?xml version="1.0"?><root k="w"><item>one</item><extra/></root>'
+Y1 = 'a:\n- 1\n- 2\n- 3\nb: x\nc:\n  d: true\n'                 # YAML that is not JSON
+Y2 = 'a:\n- 1\n- 3\nb: xy\nc:\n  d: true\n  e: null\n'
+C1 = 'id,name,n\n1,one,10\n2,two,20\n'
+C2 = 'id,name,n\n1,one,10\n2,deux,21\n3,three,30\n'
+D1 = {"a": [1, 2, 3], "b": "x", "c": {"d": True}}
+D2 = {"a": [1, 3], "b": "xy", "c": {"d": True, "e": "f"}}
+
+
+def _b64(b):
+    import base64
+    return {"b64": base64.b64encode(b).decode()}
+
+
+def _pickle(obj):
+    import pickle
+    return _b64(pickle.dumps(obj, protocol=2))
+
+
+def _plist(obj):
+    import plistlib
+    return {"text": plistlib.dumps(obj, sort_keys=False).decode()}
+
+
+def _contents():
+    """type name -> (first document, second document), each valid for that type"""
+    return {"json": (J1, J2), "json5": (J1, J2), "yaml": (Y1, Y2), "xml": (X1, X2), "html": (X1, X2), "csv": (C1, C2),
+            "plist": (_plist(D1), _plist(D2)), "pickle": (_pickle(D1), _pickle(D2))}
+
+
+EXT = {"json": ".json", "json5": ".json5", "yaml": ".yaml", "xml": ".xml", "html": ".html", "csv": ".csv", "plist": ".plist", "pickle": ".pkl"}
 
 # name -> content; the extension deliberately says something else than the content in most of them
 FILESETS = [
@@ -35,6 +70,22 @@ FILESETS = [
     {"a.json": "true", "b.yaml": "false"},
     {"a.json": "[1, 2]", "b.json": "7"},        # container replaced by a scalar at the root
 ]
+
+
+def _filesets():
+    """FILESETS plus binary ones (second audit M14: no pickle input ever reached argparse or a loader) and names that
+    carry a compression-like or otherwise misleading extension (mimetypes.guess_type reports an ENCODING for them)"""
+    p1, p2 = _pickle(D1), _pickle(D2)
+    return FILESETS + [
+        {"p1.pkl": p1, "p2.pickle": p2},            # both pickle extensions (the second through mimetypes.suffix_map)
+        {"p1.bin": p1, "p2.dat": p2},               # pickles that need an explicit type
+        {"a.json": p1, "b.pkl": J2},                # contents swapped with respect to the names
+        {"p1.pkl": p1, "b.json": J2},               # pickle against JSON
+        {"old.json.gz": J1, "new.json": J2},        # plain text under a gzip-looking name
+        {"old.json": J1, "new.yaml.bz2": Y2},
+        {"old.Z": J1, "new.xz": Y2},
+        {"a.tgz": J1, "b.svgz": J2},
+    ]
 
 
 def _sel_options(kind_types):
@@ -66,10 +117,17 @@ def _argv(args, names):
     return av + list(names)
 
 
-def _mk(files, runs, equiv=None, lib=False):
-    names = list(files)
-    return {"files": {n: {"text": c} for n, c in files.items()}, "names": names,
-            "runs": [{"args": a, "argv": _argv(a, names)} for a in runs], "equiv": equiv or [], "lib": lib}
+def _mk(files, runs, equiv=None, lib=False, names=None, run_names=None, real=False, tag=""):
+    """files: name -> text | {"b64": ...} | {"text": ...}; `names`: the two file arguments (default: the first two files);
+    run_names[i]: other file arguments for run i; real: run 0 is ALSO executed as a real subprocess writing to a pipe,
+    with and without --no-status (the status writer's buffered path is only taken on the process's own stdout)"""
+    names = list(names or list(files)[:2])
+    rs = []
+    for i, a in enumerate(runs):
+        nm = list((run_names or {}).get(i, names))
+        rs.append({"args": a, "argv": _argv(a, nm), "names": nm})
+    return {"files": {n: (c if isinstance(c, dict) else {"text": c}) for n, c in files.items()}, "names": names,
+            "runs": rs, "equiv": equiv or [], "lib": lib, "real": real, "tag": tag}
 
 
 def _sel_args(prefix, sel):
@@ -78,43 +136,99 @@ def _sel_args(prefix, sel):
     return {prefix + "_" + sel[0]: sel[1]}
 
 
+ALL_TYPES = ["json", "json5", "yaml", "xml", "html", "plist", "csv", "pickle"]
+
+# strings that str.splitlines() breaks on but '\n'.split does not: the YAML and XML formatters emit them raw
+ODD = ["\u2028", "\u2029", "\x0c", "\x1c", "\x1e", "\x85", "\x0b"]
+
+
 def gen(rng, tier):
     cases = []
-    text_types = ["json", "json5", "yaml", "xml", "html", "plist", "csv"]
-    sels = _sel_options(text_types)
-    # (1) alias: --X-T vs --X-mime default(T), for both files, on every fileset
-    for fs in FILESETS:
-        for t in text_types:
+    filesets = _filesets()
+    contents = _contents()
+    sels = _sel_options(ALL_TYPES)
+    # (1) alias: --X-T vs --X-mime default(T), for both files, on every fileset (pickle included)
+    for fs in filesets:
+        for t in ALL_TYPES:
             d = TYPES[t][0]
             other = rng.choice(sels)
-            cases.append(_mk(fs, [dict({"from_type": t}, **_sel_args("to", other)), dict({"from_mime": d}, **_sel_args("to", other))], [[0, 1]]))
-            cases.append(_mk(fs, [dict({"to_type": t}, **_sel_args("from", other)), dict({"to_mime": d}, **_sel_args("from", other))], [[0, 1]]))
-    # (2) option aliases
-    for fs in FILESETS:
-        base = {"from_type": "json", "to_type": "json"} if not list(fs)[0].endswith(".json") or fs[list(fs)[0]].startswith("<") else {}
-        if fs[list(fs)[0]].startswith("<"):
+            cases.append(_mk(fs, [dict({"from_type": t}, **_sel_args("to", other)), dict({"from_mime": d}, **_sel_args("to", other))], [[0, 1]], tag="alias-from"))
+            cases.append(_mk(fs, [dict({"to_type": t}, **_sel_args("from", other)), dict({"to_mime": d}, **_sel_args("from", other))], [[0, 1]], tag="alias-to"))
+    # (2) option aliases, and every join flag ALONE (-jl and -jd are independent; -j is both), against the library
+    for fs in filesets:
+        first = fs[list(fs)[0]]
+        if isinstance(first, dict):
+            base = {"from_type": "pickle", "to_type": "pickle"} if isinstance(fs[list(fs)[1]], dict) else None
+            if base is None:
+                continue
+        elif first.startswith("<"):
             base = {"from_type": "xml", "to_type": "xml"}
-        cases.append(_mk(fs, [dict(base, k=True), dict(base, dict_strategy="none")], [[0, 1]], lib=True))
-        cases.append(_mk(fs, [dict(base, j=True), dict(base, jl=True, jd=True)], [[0, 1]], lib=True))
-        cases.append(_mk(fs, [dict(base), dict(base, dict_strategy="auto")], [[0, 1]], lib=True))
-        cases.append(_mk(fs, [dict(base, l=True)], lib=True))
-        cases.append(_mk(fs, [dict(base, ll=True, dict_strategy="match")], lib=True))
-    # (2b) `-f T` with T the type of the FROM file is the default formatter (help text of --format), in every mode
-    for fs, ft, tt in ((FILESETS[2], "json", "yaml"), (FILESETS[0], "json", "json5"), (FILESETS[0], "yaml", "json"), (FILESETS[3], "xml", "html")):
+        elif list(fs)[0].endswith(".json") and list(fs)[1].endswith((".json", ".yaml")):
+            base = {}
+        else:
+            base = {"from_type": "json", "to_type": "yaml" if fs[list(fs)[1]] == Y2 else "json"}
+        cases.append(_mk(fs, [dict(base, k=True), dict(base, dict_strategy="none")], [[0, 1]], lib=True, tag="alias-k"))
+        cases.append(_mk(fs, [dict(base, j=True), dict(base, jl=True, jd=True)], [[0, 1]], lib=True, tag="alias-j"))
+        cases.append(_mk(fs, [dict(base), dict(base, dict_strategy="auto")], [[0, 1]], lib=True, tag="alias-auto"))
+        cases.append(_mk(fs, [dict(base, l=True)], lib=True, tag="opt-l"))
+        cases.append(_mk(fs, [dict(base, ll=True, dict_strategy="match")], lib=True, tag="opt-ll"))
+        cases.append(_mk(fs, [dict(base, jl=True)], lib=True, tag="lone-jl"))
+        cases.append(_mk(fs, [dict(base, jd=True)], lib=True, tag="lone-jd"))
+        for mode in (["-e"], ["-d"]):
+            cases.append(_mk(fs, [dict(base, extra=mode)], lib=True, tag="mode" + mode[0]))
+            cases.append(_mk(fs, [dict(base, jd=True, extra=mode), dict(base, jl=True, extra=mode)], lib=True, tag="lone-jd" + mode[0]))
+            cases.append(_mk(fs, [dict(base, k=True, extra=mode), dict(base, dict_strategy="none", extra=mode)], [[0, 1]], lib=True, tag="alias-k" + mode[0]))
+    # (2b) `-f T` with T the type of the FROM file is the default formatter (help text of --format), in every mode;
+    #      the library comparison covers -e and -d as well (get_all_edits / get_all_edit_contexts)
+    for fs, ft, tt in ((FILESETS[2], "json", "yaml"), (FILESETS[0], "json", "json5"), (FILESETS[0], "yaml", "json"), (FILESETS[3], "xml", "html"),
+                       (filesets[11], "pickle", "pickle")):
         for mode in ([], ["-d"], ["-e"]):
             base = {"from_type": ft, "to_type": tt}
-            cases.append(_mk(fs, [dict(base, extra=mode), dict(base, extra=mode + ["-f", ft])], [[0, 1]], lib=(mode == [])))
+            cases.append(_mk(fs, [dict(base, extra=mode), dict(base, extra=mode + ["-f", ft])], [[0, 1]], lib=True, tag="format" + (mode[0] if mode else "")))
+            other = "yaml" if ft != "yaml" else "json"
+            cases.append(_mk(fs, [dict(base, extra=mode + ["-f", other])], lib=True, tag="format-other" + (mode[0] if mode else "")))
+    # (2c) DIFFERENT types on the two sides, every ordered pair, in all four spellings (type/type, type/mime, mime/type,
+    #      mime/mime), on files whose names do not imply the type: neutral names, names implying the OTHER side's type,
+    #      compression-like names.  Contents are valid for the requested types, so the library comparison has a diff.
+    pairs2 = [(a, b) for a in ALL_TYPES for b in ALL_TYPES if a != b]
+    for n, (t1, t2) in enumerate(pairs2):
+        schemes = [("left.data", "right.data"), ("left" + EXT[t2], "right" + EXT[t1]), ("left" + EXT[t1] + ".gz", "right.bz2")]
+        if tier == "quick":
+            schemes = [schemes[n % 3], schemes[(n + 1) % 3]] if (t1, t2) not in (("json", "yaml"), ("yaml", "json"), ("json", "pickle")) else schemes
+        for ln, rn in schemes:
+            fs = {ln: contents[t1][0], rn: contents[t2][1]}
+            m1 = TYPES[t1][0] if n % 2 == 0 else rng.choice(TYPES[t1])
+            m2 = TYPES[t2][0] if n % 2 == 0 else rng.choice(TYPES[t2])
+            runs = [{"from_type": t1, "to_type": t2}, {"from_type": t1, "to_mime": m2}, {"from_mime": m1, "to_type": t2}, {"from_mime": m1, "to_mime": m2}]
+            cases.append(_mk(fs, runs, [[0, 1], [0, 2], [0, 3]], lib=True, tag="two-types"))
+    # (2d) a misleading NAME must not matter once the type is explicit: the same bytes under neutral names give the same result
+    for (ln, rn, t1, t2) in (("old.json.gz", "new.json", "json", "json"), ("old.json", "new.yaml.bz2", "json", "yaml"), ("old.Z", "new.xz", "json", "yaml"),
+                             ("old.yaml", "new.csv", "json", "yaml"), ("old.pkl.gz", "new.pickle", "pickle", "pickle"), ("a.tar.gz", "b.tgz", "xml", "html"),
+                             ("old.json.br", "new.json.xz", "yaml", "json5")):
+        fs = {ln: contents[t1][0], rn: contents[t2][1], "from_document": contents[t1][0], "to_document": contents[t2][1]}
+        for args in ({"from_type": t1, "to_type": t2}, {"from_mime": TYPES[t1][-1], "to_mime": TYPES[t2][-1]}):
+            cases.append(_mk(fs, [args, args], [[0, 1]], lib=True, names=[ln, rn], run_names={1: ["from_document", "to_document"]}, tag="name-vs-neutral"))
+        # without an explicit type the guess (ignoring the encoding) decides; the model is told the guess
+        cases.append(_mk(fs, [{}], names=[ln, rn], tag="gz-guess"))
+    # (2e) the command as a real process writing to a pipe, with status output on (the status writer buffers lines only
+    #      on the process's own stdout); strings holding characters that str.splitlines() treats as line ends
+    odd = ODD if tier == "thorough" else [ODD[0], ODD[1], rng.choice(ODD[2:])]
+    for ch in odd:
+        cases.append(_mk({"a.txt": '{"k": "x%sy", "n": 1}' % ch, "b.txt": '{"k": "x%sz", "n": 2}' % ch}, [{"from_type": "yaml", "to_type": "yaml"}], lib=True, real=True, tag="real-stdout"))
+        cases.append(_mk({"a.txt": '<doc a="1">page one%spage two</doc>' % ch, "b.txt": '<doc a="2">page one%spage two</doc>' % ch}, [{"from_type": "xml", "to_type": "xml"}], lib=True, real=True, tag="real-stdout"))
+    cases.append(_mk({"a.json": J1, "b.json": J2}, [{}], lib=True, real=True, tag="real-stdout"))
+    cases.append(_mk({"a.txt": Y1, "b.txt": Y2}, [{"from_type": "yaml", "to_type": "yaml", "extra": ["-e"]}], lib=True, real=True, tag="real-stdout"))
     # (3) the selection cross product (exhaustive in thorough, sampled in quick)
     pairs = [(a, b) for a in sels for b in sels]
     if tier == "quick":
-        pairs = rng.sample(pairs, 120)
+        pairs = rng.sample(pairs, 140)
     for a, b in pairs:
-        fs = rng.choice(FILESETS) if tier == "quick" else FILESETS[(hash((str(a), str(b))) & 0xffff) % len(FILESETS)]
-        cases.append(_mk(fs, [dict(_sel_args("from", a), **_sel_args("to", b))], lib=(a is not None and b is not None)))
+        fs = rng.choice(filesets) if tier == "quick" else filesets[(hash((str(a), str(b))) & 0xffff) % len(filesets)]
+        cases.append(_mk(fs, [dict(_sel_args("from", a), **_sel_args("to", b))], lib=(a is not None and b is not None), tag="cross"))
     if tier == "thorough":
-        for fs in FILESETS[:2]:
+        for fs in filesets[:2] + filesets[10:12]:
             for a, b in pairs:
-                cases.append(_mk(fs, [dict(_sel_args("from", a), **_sel_args("to", b))]))
+                cases.append(_mk(fs, [dict(_sel_args("from", a), **_sel_args("to", b))], tag="cross"))
     return cases
 
 
@@ -123,15 +237,10 @@ def _opts_of(o):
 
 
 def impl(case):
-    import mimetypes, io, os, tempfile, shutil
+    import mimetypes, os, tempfile, shutil
     from harness import clirun
     import graphtage
-    from graphtage.printer import Printer
-    # record the options the loaders receive
     clirun._patch_loaders()
-    seen_opts = []
-    if not getattr(graphtage.Filetype, "_verif_opts", False):
-        pass
     d = tempfile.mkdtemp(prefix="gtverif_")
     try:
         clirun.write_files(case["files"], d)
@@ -156,21 +265,55 @@ def impl(case):
             o["out"] = o["out"][:6000]
             o["err"] = o["err"][:500]
             res.append(o)
-        guesses = [mimetypes.guess_type(os.path.join(d, n))[0] for n in case["names"]]
+        guesses = {n: mimetypes.guess_type(os.path.join(d, n))[0] for n in case["files"]}
         lib = None
         if case.get("lib"):
             lib = _lib_run(case, d)
-        return {"runs": res, "guesses": guesses, "lib": lib}
+        real = None
+        if case.get("real"):
+            real = _real_runs(case, d)
+        return {"runs": res, "guesses": guesses, "lib": lib, "real": real}
     finally:
         shutil.rmtree(d, ignore_errors=True)
 
 
+def _real_runs(case, d):
+    """run 0 as a real process (`python -m graphtage`) whose stdout is a pipe: once as given (with --no-status) and
+    once with status output on, which is the only way the status writer's line buffering is ever on the path"""
+    import os, subprocess, sys
+    argv = list(case["runs"][0]["argv"])
+    out = []
+    for av in (argv, [x for x in argv if x != "--no-status"]):
+        env = dict(os.environ, PYTHONIOENCODING="utf-8:surrogatepass")
+        try:
+            p = subprocess.run([sys.executable, "-m", "graphtage", "--no-color"] + av, cwd=d, env=env, stdin=subprocess.DEVNULL,
+                               stdout=subprocess.PIPE, stderr=subprocess.PIPE, timeout=60)
+            out.append({"argv": av, "rc": p.returncode, "out": p.stdout.decode("utf-8", "surrogatepass")[:6000],
+                        "tb": "Traceback" in p.stderr.decode("utf-8", "replace")})
+        except subprocess.TimeoutExpired:
+            out.append({"argv": av, "rc": None, "out": "", "tb": False, "timeout": True})
+    return out
+
+
+def _fmt_of(a):
+    ex = list(a.get("extra", []))
+    return ex[ex.index("-f") + 1] if "-f" in ex else None
+
+
 def _lib_run(case, d):
-    """What the library produces for the first run's files and options (documented API usage)."""
+    """What the LIBRARY produces for the first run's files and options, following the documented call sequence:
+    get_filetype + build_tree_handling_errors, then
+       full diff : TreeNode.diff + formatter.print          exit status: some edit of the diff has non-zero cost
+       -e        : str() of every TreeNode.get_all_edits    exit status: some listed edit has non-zero cost
+       -d        : TreeNode.get_all_edit_contexts, parent contexts + formatter.print of the edit
+    on a Printer over a StringIO.  `-f T` picks T's default formatter, otherwise the from-file's."""
     import io, os
     import graphtage
     from graphtage.printer import Printer
-    a = case["runs"][0]["args"]
+    from colorama.ansi import Fore
+    run = case["runs"][0]
+    a = run["args"]
+    extra = list(a.get("extra", []))
 
     def mime(prefix):
         if a.get(prefix + "_mime"):
@@ -189,12 +332,12 @@ def _lib_run(case, d):
         ake = amk = not a.get("k", False)
     opts = graphtage.BuildOptions(allow_key_edits=ake, auto_match_keys=amk, allow_list_edits=not a.get("l", False),
                                   allow_list_edits_when_same_length=not a.get("ll", False))
-    fp, tp = (os.path.join(d, n) for n in case["names"])
+    fp, tp = (os.path.join(d, n) for n in run.get("names", case["names"]))
     try:
         ff = graphtage.get_filetype(fp, mime("from"))
         tf = graphtage.get_filetype(tp, mime("to"))
     except ValueError:
-        return {"rc": 1, "out": ""}
+        return {"rc": 1, "out": "", "loaded": False}
     buf = io.StringIO()
     buf.close = lambda: None
     printer = Printer(buf, ansi_color=None, quiet=True, options={"join_lists": bool(a.get("j") or a.get("jl")), "join_dict_items": bool(a.get("j") or a.get("jd"))})
@@ -204,27 +347,57 @@ def _lib_run(case, d):
             opts.printer = printer
             ft = ff.build_tree_handling_errors(fp, opts)
             if isinstance(ft, str):
-                return {"rc": 1, "out": ""}
+                return {"rc": 1, "out": "", "loaded": False}
             tt = tf.build_tree_handling_errors(tp, opts)
             if isinstance(tt, str):
-                return {"rc": 1, "out": ""}
-            diff = ft.diff(tt)
-            ff.get_default_formatter().print(printer, diff)
-            had = any(any(e.has_non_zero_cost() for e in n.edit_list) for n in diff.dfs())
+                return {"rc": 1, "out": "", "loaded": False}
+            fmt = _fmt_of(a)
+            formatter = graphtage.FILETYPES_BY_TYPENAME[fmt].get_default_formatter() if fmt else ff.get_default_formatter()
+            if "-e" in extra:
+                for edit in ft.get_all_edits(tt):
+                    printer.write(str(edit))
+                    printer.newline()
+                    had = had or edit.has_non_zero_cost()
+            elif "-d" in extra:
+                for ancestors, edit in ft.get_all_edit_contexts(tt):
+                    for i, node in enumerate(ancestors):
+                        if node.parent is not None:
+                            node.parent.print_parent_context(printer, for_child=node)
+                        if i == len(ancestors) - 1:
+                            with printer.color(Fore.BLUE):
+                                printer.write(" -> ")
+                            formatter.print(printer, edit)
+                    printer.newline()
+                    had = had or edit.has_non_zero_cost()
+            else:
+                diff = ft.diff(tt)
+                formatter.print(printer, diff)
+                had = any(any(e.has_non_zero_cost() for e in n.edit_list) for n in diff.dfs())
         printer.write("\n")
     except Exception as e:
-        return {"rc": None, "out": buf.getvalue()[:6000], "exc": type(e).__name__}
+        return {"rc": None, "out": buf.getvalue()[:6000], "exc": type(e).__name__, "loaded": True}
     finally:
         printer.close()
-    return {"rc": 1 if had else 0, "out": buf.getvalue()[:6000]}
+    return {"rc": 1 if had else 0, "out": buf.getvalue()[:6000], "loaded": True}
+
+
+def _guess(obs, name):
+    g = obs["guesses"]
+    return g.get(name) if isinstance(g, dict) else None
+
+
+def _run_names(case, cr):
+    return cr.get("names") or case["names"]
 
 
 def to_model(case, obs):
     if not isinstance(obs, dict) or obs.get("error"):
         return None
-    g = obs["guesses"]
-    return {"s": "cli", "runs": [{"args": r["args"], "guess_from": g[0], "guess_to": g[1], "to_loaded": len(o["loaders"]) > 1}
-                                 for r, o in zip(case["runs"], obs["runs"])]}
+    runs = []
+    for r, o in zip(case["runs"], obs["runs"]):
+        n = _run_names(case, r)
+        runs.append({"args": r["args"], "guess_from": _guess(obs, n[0]), "guess_to": _guess(obs, n[1]), "to_loaded": len(o["loaders"]) > 1})
+    return {"s": "cli", "runs": runs}
 
 
 def expect(case, obs):
@@ -242,7 +415,7 @@ def expect(case, obs):
                     return "ERR:unsupported-mime"
                 return "ERR:?"
             # main() resolves from first; if from fails we cannot observe `to`
-            which = case["names"][0] in err
+            which = _run_names(case, cr)[0] in err
             if which:
                 out.append({"from": cls(err), "to": None, "opts": r["opts"], "printer": r["printer"]})
             else:
@@ -252,6 +425,10 @@ def expect(case, obs):
         t = ld[1][0] if len(ld) > 1 else None
         out.append({"from": f, "to": t, "opts": r["opts"], "printer": r["printer"]})
     return {"runs": out}
+
+
+def _text_of(spec):
+    return spec["text"] if isinstance(spec, dict) and "text" in spec else None
 
 
 def monitor(case, obs):
@@ -265,42 +442,75 @@ def monitor(case, obs):
             hits.append({"prop": "C14", "key": "alias-mismatch", "what": f"equivalent spellings differ: {case['runs'][i]['argv']} -> rc={a['rc']} exc={a['exc']} vs {case['runs'][j]['argv']} -> rc={b['rc']} exc={b['exc']}"})
     for r, cr in zip(runs, case["runs"]):
         a = cr["args"]
+        names = _run_names(case, cr)
         for pos, prefix in ((0, "from"), (1, "to")):
             want = a.get(prefix + "_type")
             if a.get(prefix + "_mime"):
                 want = next((t for t, ms in TYPES.items() if a[prefix + "_mime"] in ms), None)
             if want and len(r["loaders"]) > pos and r["loaders"][pos][0] != want:
                 hits.append({"prop": "C14", "key": f"explicit-type-ignored:{prefix}", "what": f"{cr['argv']}: file {pos + 1} was parsed as {r['loaders'][pos][0]}, explicitly requested {want}"})
-            if want and not r["loaders"] and not r["exc"] and case["names"][pos] in r["err"] and "Error:" in r["err"]:
+            if want and not r["loaders"] and not r["exc"] and names[pos] in r["err"] and "Error:" in r["err"]:
                 hits.append({"prop": "C14", "key": f"explicit-type-rejected:{prefix}", "what": f"{cr['argv']}: explicit type given but no parser was invoked: {r['err'][:120]}"})
+        # the two join flags are independent of each other: -jl is join_lists only, -jd is join_dict_items only, -j is both
+        wantp = [bool(a.get("j") or a.get("jl")), bool(a.get("j") or a.get("jd"))]
+        if r.get("printer") is not None and r["printer"] != wantp and not r["exc"] and r["rc"] in (0, 1) and r["loaders"]:
+            hits.append({"prop": "C14", "key": "join-flags", "what": f"{cr['argv']}: printer options (join_lists, join_dict_items) = {r['printer']}, the flags say {wantp}"})
     # C02 (exit status half): when both files were read by JSON-compatible loaders, status 0 iff equal as data
-    try:
-        from harness.streams.script import data_eq
-        docs = [json.loads(case["files"][n]["text"]) for n in case["names"]]
-        de = data_eq(docs[0], docs[1])
-    except Exception:
-        de = None
-    if de is not None:
-        for r, cr in zip(runs, case["runs"]):
-            ld = [x[0] for x in r["loaders"]]
-            if len(ld) >= 1 and all(x in ("json", "json5", "yaml") for x in ld) and not r["exc"] and "Error" not in r["err"]:
-                if de and r["rc"] != 0:
-                    hits.append({"prop": "C02", "key": "equal-but-exit-nonzero", "what": f"{cr['argv']}: documents are equal as data but the command exits with {r['rc']}"})
-                if not de and r["rc"] != 1:
-                    hits.append({"prop": "C02", "key": "differ-but-exit-zero", "what": f"{cr['argv']}: documents differ but the command exits with {r['rc']}"})
-    if obs.get("lib") is not None:
-        a, l = runs[0], obs["lib"]
+    from harness.streams.script import data_eq
+    for r, cr in zip(runs, case["runs"]):
+        try:
+            docs = [json.loads(_text_of(case["files"][n])) for n in _run_names(case, cr)]
+            de = data_eq(docs[0], docs[1])
+        except Exception:
+            continue
+        ld = [x[0] for x in r["loaders"]]
+        if len(ld) >= 1 and all(x in ("json", "json5", "yaml") for x in ld) and not r["exc"] and "Error" not in r["err"]:
+            if de and r["rc"] != 0:
+                hits.append({"prop": "C02", "key": "equal-but-exit-nonzero", "what": f"{cr['argv']}: documents are equal as data but the command exits with {r['rc']}"})
+            if not de and r["rc"] != 1:
+                hits.append({"prop": "C02", "key": "differ-but-exit-zero", "what": f"{cr['argv']}: documents differ but the command exits with {r['rc']}"})
+    l = obs.get("lib")
+    if l is not None:
+        a = runs[0]
+        av = case["runs"][0]["argv"]
+        mode = "-e" if "-e" in av else ("-d" if "-d" in av else "full")
         if a["exc"] is None and l.get("exc") is None and (a["rc"], a["out"]) != (l["rc"], l["out"]):
-            hits.append({"prop": "C14", "key": "cli-vs-library", "what": f"{case['runs'][0]['argv']}: command gives rc={a['rc']} and {len(a['out'])} chars, library gives rc={l['rc']} and {len(l['out'])} chars"})
+            what = "exit status" if a["out"] == l["out"] else "text"
+            hits.append({"prop": "C14", "key": f"cli-vs-library:{mode}:{what}", "what": f"{av}: command gives rc={a['rc']} and {len(a['out'])} chars, library gives rc={l['rc']} and {len(l['out'])} chars"})
+        elif (a["exc"] is None) != (l.get("exc") is None):
+            hits.append({"prop": "C14", "key": f"cli-vs-library:{mode}:exception", "what": f"{av}: command exc={a['exc']} rc={a['rc']}, library exc={l.get('exc')} rc={l['rc']}"})
+        for rr in obs.get("real") or []:
+            if rr.get("timeout"):
+                hits.append({"prop": "C14", "key": "real-process:timeout", "what": f"{rr['argv']}: no result within 60 s"})
+            elif l.get("exc") is None and not rr["tb"] and (rr["rc"], rr["out"]) != (l["rc"], l["out"]):
+                st = "no-status" if "--no-status" in rr["argv"] else "status-on"
+                hits.append({"prop": "C14", "key": f"cli-vs-library:real-stdout:{st}", "what": f"python -m graphtage --no-color {' '.join(rr['argv'])} (stdout a pipe): rc={rr['rc']} text {rr['out'][:80]!r}; library: rc={l['rc']} text {l['out'][:80]!r}"})
     return hits
 
 
 def classify(case, obs):
     a = case["runs"][0]["args"]
     def k(prefix):
-        return "mime" if a.get(prefix + "_mime") else ("type" if a.get(prefix + "_type") else "guess")
-    return f"from={k('from')},to={k('to')},runs={len(case['runs'])},lib={bool(case.get('lib'))}"
+        return "mime" if a.get(prefix + "_mime") else ("type:" + a[prefix + "_type"] if a.get(prefix + "_type") else "guess")
+    lib = "-"
+    if isinstance(obs, dict) and obs.get("lib") is not None:
+        l = obs["lib"]
+        lib = "exc" if l.get("exc") else ("diff" if l.get("loaded") and l["out"].strip() else ("loaded-empty" if l.get("loaded") else "load-error"))
+    return f"{case.get('tag', '')}:from={k('from')},to={k('to')},lib={lib}"
 
 
 def nontrivial(case, obs):
     return True
+
+
+def shrink(case):
+    """fewer runs (keeping the pairs named in `equiv`), no real-process part"""
+    out = []
+    if case.get("real"):
+        out.append(dict(case, real=False))
+    if len(case["runs"]) > 2:
+        for i, j in case.get("equiv", []):
+            out.append(dict(case, runs=[case["runs"][i], case["runs"][j]], equiv=[[0, 1]], lib=case.get("lib") and i == 0))
+    if len(case["runs"]) > 1 and not case.get("equiv"):
+        out.append(dict(case, runs=case["runs"][:1]))
+    return out
